@@ -1,0 +1,17 @@
+//go:build verif
+
+package tcp
+
+import (
+	"io"
+
+	gkm "github.com/go-kit/kit/metrics"
+)
+
+// Verification hooks for property C09 (build tag verif): thin exported wrappers around unexported code so
+// that the correspondence harness in /verif can call the real thing in-process. No behaviour is changed.
+
+// VerifCopyBuffer exposes copyBuffer.
+func VerifCopyBuffer(dst io.Writer, src io.Reader, c gkm.Counter) error {
+	return copyBuffer(dst, src, c)
+}
